@@ -422,16 +422,30 @@ func ruleVValidated(c *engine.Context) *report.Rule {
 				}
 				conds := dominatingConds(b)
 				validated := map[ssa.Value]bool{}
+				validatedBy := map[ssa.Value]*ssa.Call{}
 				for _, dc := range conds {
 					if !dc.taken {
 						continue
 					}
 					if vc, ok := dc.cond.(*ssa.Call); ok && vc.Call.IsInvoke() && vc.Call.Method.Name() == p.Roles.ValidateMethod && sameFieldLoad(vc.Call.Value, call.Call.Value) {
 						validated[vc.Call.Args[0]] = true
+						validatedBy[vc.Call.Args[0]] = vc
 					}
 				}
 				ok1 := validated[leftList]
 				ok2 := rightList != nil && validated[rightList]
+				// validation normalises the list in place (json.Number -> float64, blanking): the
+				// element handed to the comparator must be read after it
+				if ok2 {
+					ld := rightVal.(*ssa.UnOp)
+					if vc := validatedBy[rightList]; vc != nil && !instrBefore(vc, ld) {
+						r.Oblige(false)
+						r.Violation("right operand in "+load.FuncName(fn)+" read before validation", p.RelPos(ld.Pos()),
+							"the right operand is read out of its list before the comparator's validator has run on that list; validation converts and blanks elements in place, so the comparator receives an unvalidated value (json.Number instead of float64, or a value of the wrong type) and its unchecked type assertion can panic")
+					} else {
+						r.Oblige(true)
+					}
+				}
 				r.Oblige(ok1 && ok2)
 				r.Sample("%s: compare(left, right[0]) dominated by validate(left)=%v and validate(right)=%v", load.FuncName(fn), ok1, ok2)
 				if !(ok1 && ok2) {
@@ -1027,4 +1041,20 @@ func fmtBoolPtr(b *bool) string {
 		return "true"
 	}
 	return "false"
+}
+
+// instrBefore: a executes before b on every path reaching b (a's block strictly dominates b's, or same block and earlier).
+func instrBefore(a, b ssa.Instruction) bool {
+	if a.Block() == b.Block() {
+		for _, ins := range a.Block().Instrs {
+			if ins == a {
+				return true
+			}
+			if ins == b {
+				return false
+			}
+		}
+		return false
+	}
+	return a.Block().Dominates(b.Block())
 }
